@@ -329,6 +329,8 @@ class SeriesOps:
                 self.log("list-extend", node, value=to_term(v))
                 if isinstance(v, list):
                     obj.extend(v)
+                elif isinstance(v, (set, frozenset, PyTuple)) and I.run.loop_depth == 0 and not any(isinstance(x, Each) for x in I._concrete_seq(v)):
+                    obj.extend(I._concrete_seq(v))          # known elements (a set in the analysis' fixed order: rules must not rely on the order)
                 else:
                     obj.append(Each(v))
                 return None
@@ -377,9 +379,34 @@ class SeriesOps:
                 self.log("set-mutation", node, what=name, args=[to_term(p) for p in pos])
                 if name == "add":
                     obj.add(I._hashable(Each(pos[0]) if I.run.loop_depth > 0 else pos[0]) if not isinstance(pos[0], (Frame,)) else to_term(pos[0]))
+                elif I.run.loop_depth == 0 and not any(isinstance(x, Each) for x in obj):
+                    # outside symbolic loops, on known elements: the mutation itself
+                    try:
+                        if name in ("discard", "remove") and len(pos) == 1 and I._hashable(pos[0]) in obj:
+                            obj.discard(I._hashable(pos[0]))
+                        elif name == "update" and all(I._concrete_seq(p_) is not None for p_ in pos):
+                            for p_ in pos:
+                                obj.update(I._hashable(x) for x in I._concrete_seq(p_))
+                        elif name == "clear":
+                            obj.clear()
+                        elif name == "pop" and obj:
+                            x_ = sorted(obj, key=repr)[0]
+                            obj.discard(x_)
+                            return x_
+                    except TypeError:
+                        pass
                 return None
             if name == "union" and pos and isinstance(pos[0], (set, list)):
                 return set(obj) | set(pos[0])
+            # a set of known elements combined with collections of known elements: the library's own result
+            known = lambda c_: not any(isinstance(x, Each) for x in c_)
+            others = [I._concrete_seq(p_) for p_ in pos]
+            if name in ("intersection", "difference", "symmetric_difference", "issubset", "issuperset", "isdisjoint", "union", "copy") and not kw and known(obj) \
+                    and all(o_ is not None and known(o_) for o_ in others):
+                try:
+                    return getattr(set(obj), name)(*[set(I._hashable(x) for x in o_) for o_ in others])
+                except TypeError:
+                    pass
         if isinstance(obj, str):
             if name == "join" and pos and isinstance(pos[0], (PyTuple, list)):
                 items = pos[0].items if isinstance(pos[0], PyTuple) else pos[0]
